@@ -74,10 +74,13 @@ def parse(filename: str, config: ConfigManager) -> TeX:
 
     # Load aux files for cross-document references
     pauxname = '%s.paux' % jobname
+    ownpaux = os.path.abspath(os.path.join(cwd, pauxname))
     rname = config['general']['renderer']
     for dirname in [cwd] + config['general']['paux-dirs']:
         for fname in glob.glob(os.path.join(dirname, '*.paux')):
-            if os.path.basename(fname) == pauxname:
+            # Only this document's own file is skipped: a document with the
+            # same job name in another directory is a different document
+            if os.path.abspath(fname) == ownpaux:
                 continue
             document.context.restore(fname, rname)
 
